@@ -362,6 +362,7 @@ impl Work<Context, AnyWorkId, Error> for GlyphWork {
             .glyphs
             .get(&FeWorkId::Glyph(self.glyph_name.clone()));
         let glyph = CheckedGlyph::new(ir_glyph)?;
+        check_advances_fit_u16(ir_glyph, static_metadata.build_vertical)?;
 
         // Hopefully in time https://github.com/harfbuzz/boring-expansion-spec means we can drop this
         let mut glyph = cubics_to_quadratics(glyph, static_metadata.units_per_em);
@@ -497,6 +498,24 @@ impl Work<Context, AnyWorkId, Error> for GlyphWork {
 
         Ok(())
     }
+}
+
+/// hmtx/vmtx advances are u16 and rounding into one saturates silently:
+/// 70000 became 65535 and a negative advance 0. ufo2ft refuses both.
+fn check_advances_fit_u16(glyph: &ir::Glyph, build_vertical: bool) -> Result<(), Error> {
+    let fits = |v: f64| (0.0..=u16::MAX as f64).contains(&(v + 0.5).floor());
+    for instance in glyph.sources().values() {
+        let height = instance.height.filter(|_| build_vertical);
+        for (what, value) in [("width", Some(instance.width)), ("height", height)] {
+            if let Some(value) = value.filter(|v| !fits(*v)) {
+                return Err(Error::OutOfBounds {
+                    what: format!("advance {what} of glyph '{}'", glyph.name),
+                    value: value.to_string(),
+                });
+            }
+        }
+    }
+    Ok(())
 }
 
 /// glyf stores coordinates as 16-bit values; rounding a larger value into an
